@@ -321,7 +321,7 @@ impl Task {
     // # Safety
     //
     // Can only be called by the Executor once.
-    pub unsafe fn drop(&self) {
+    pub unsafe fn drop(&self) -> Option<Waker> {
         instrument!(compio_log::Level::TRACE, "Task::drop", id = ?self.header().id);
 
         let header = self.header();
@@ -337,7 +337,7 @@ impl Task {
         // types could trigger a second panic. Skip content drops if already panicking.
         if ::std::thread::panicking() {
             trace!("Skipping content drops during panic");
-            return;
+            return None;
         }
 
         if !state.is_completed() {
@@ -347,18 +347,24 @@ impl Task {
         }
 
         // If `JoinHandle` is setting the waker remotely, it'll check the state
-        // afterwards and drop the waker. Otherwise, we drop the waker here if
-        // it exists.
+        // afterwards and drop the waker. Otherwise, we take the waker out here if
+        // it exists and hand it to the caller: when the task is destroyed without
+        // having completed, whoever awaits its `JoinHandle` must be woken to see
+        // the cancellation.
+        let mut waker = None;
         if state.has_waker() && !state.is_setting_waker() {
-            trace!("Dropping waker");
-            crate::panic_guard!();
+            trace!("Taking waker");
 
-            header
-                .waker
-                .with_mut(|ptr| unsafe { drop_in_place(ptr.cast::<Waker>()) });
+            waker = Some(
+                header
+                    .waker
+                    .with_mut(|ptr| unsafe { ptr.cast::<Waker>().read() }),
+            );
         }
 
         trace!("Completed");
+
+        waker
     }
 
     /// Returns true if this Task has been finalized, either because it's been
